@@ -318,6 +318,7 @@ func runC15(c *Ctx) {
 	}
 
 	runC15Fold(c, cs)
+	runC15Accumulate(c, cs)
 
 	// ---- safety ----
 	var fails []string
@@ -390,6 +391,13 @@ func upperBound(v ssa.Value, depth int) uint64 {
 				}
 			}
 			return x
+		case token.SHL:
+			if k, ok := t.Y.(*ssa.Const); ok && k.Value != nil {
+				if s, ok := constant.Uint64Val(k.Value); ok && s < 32 && x <= tmax(t.Type())>>s {
+					return x << s
+				}
+			}
+			return tmax(t.Type())
 		case token.AND:
 			return min(x, y)
 		case token.ADD:
@@ -411,6 +419,48 @@ func upperBound(v ssa.Value, depth int) uint64 {
 		}
 	}
 	return tmax(v.Type())
+}
+
+// runC15Accumulate: the 32-bit accumulator of Checksum cannot wrap for any IP datagram only when every
+// addend is narrow: at most the sum of two 16-bit words per addition (32768 words of 0xffff stay below 2^32).
+// A 32-bit addend (two words loaded at once) drops the carry out of bit 31 for inputs such as ff ff ff ff ...
+func runC15Accumulate(c *Ctx, cs *ssa.Function) {
+	r := c.R
+	r.Rule("accumulate", "every addition into Checksum's 32-bit accumulator has an addend of at most two 16-bit words: no carry out of bit 31 for any datagram", 1)
+	n := 0
+	var bad []string
+	var pos token.Pos
+	core.EachInstr(cs, func(i ssa.Instruction) {
+		bo, ok := i.(*ssa.BinOp)
+		if !ok || bo.Op != token.ADD {
+			return
+		}
+		if b, ok := bo.Type().Underlying().(*types.Basic); !ok || b.Kind() != types.Uint32 {
+			return
+		}
+		n++
+		x, y := upperBound(bo.X, 0), upperBound(bo.Y, 0)
+		if y < x {
+			x = y
+		}
+		if x > 0x1fffe {
+			bad = append(bad, fmt.Sprintf("%s: the narrower operand can reach 0x%x", norm(bo), x))
+			if pos == token.NoPos {
+				pos = core.PosOf(i)
+			}
+		}
+	})
+	st, det := core.Proved, ""
+	if n == 0 {
+		st, det = core.Violated, "no 32-bit addition found in Checksum"
+	} else if len(bad) > 0 {
+		st, det = core.Violated, "a 32-bit addend is added to the 32-bit accumulator, the carry out of bit 31 is lost: "+strings.Join(bad, "; ")
+	}
+	if pos == token.NoPos {
+		pos = cs.Pos()
+	}
+	r.Add(core.Obligation{Rule: "accumulate", Key: "accumulate Checksum addends", Func: core.FuncName(cs), Pos: c.P.Pos(pos), Status: st,
+		Basis: fmt.Sprintf("%d 32-bit additions, each with an operand of at most 0x1fffe", n), Detail: det})
 }
 
 func runC15Fold(c *Ctx, cs *ssa.Function) {
